@@ -93,6 +93,39 @@ if len(rec.calls) != 1 or rec.calls[0][1] is not IS.FAILED or rec.calls[0][3] is
         or not rec.calls[0][4]:
     raise SystemExit(f'fail-closed: direct processing of a raising handler does not report Fail/Oth/message: {rec.calls}')
 
+# ---- queued processing: a request is enqueued and answered Wait; when the queue is full (the put timeout has elapsed)
+#      it is refused with queue.Full -- or (a defect) answered Wait although nothing was enqueued
+import queue as _queue  # noqa: E402
+
+
+class _QOp(_Op):
+    delayed_processing = True
+
+
+probe_worker = sco._OperationsWorker(registry, rec, _Mdib(), 'c09')       # never started
+pq = probe_worker._operations_queue
+
+
+def _put(item, block=True, timeout=None):
+    return _queue.Queue.put(pq, item, block=False) if timeout is not None else _queue.Queue.put(pq, item, block, timeout)
+
+
+pq.put = _put
+registry._worker = probe_worker
+rec.calls.clear()
+if registry.handle_operation_request(_QOp(IS.FINISHED), None, None, 7) is not IS.WAIT or pq.qsize() != 1 or rec.calls:
+    raise SystemExit('fail-closed: queued processing does not enqueue the operation and answer Wait')
+while pq.qsize() < pq.maxsize:
+    _queue.Queue.put(pq, 'filler', block=False)
+try:
+    full_answer = registry.handle_operation_request(_QOp(IS.FINISHED), None, None, 8)
+    if full_answer is not IS.WAIT or pq.qsize() != pq.maxsize or rec.calls:
+        raise SystemExit(f'fail-closed: a full queue is neither refused with queue.Full nor answered Wait: {full_answer}')
+    full_queue_loses_wait = True
+except _queue.Full:
+    full_queue_loses_wait = False
+registry._worker = None
+
 # ---- consumer
 msgs = c09_lib.Messages()
 drv = c09_lib.ManagerDriver(msgs)
@@ -166,7 +199,8 @@ Definition consumer_nonfinal : list istate := {lst(nonfinal)}.
 Definition consumer_keeps_early_parts : bool := {'true' if keeps_early else 'false'}.
 Definition txid_under_lock : bool := {'true' if txid_locked() else 'false'}.
 Definition consumer_state_under_lock : bool := {'true' if state_under_lock else 'false'}.
+Definition sco_full_queue_loses_wait : bool := {'true' if full_queue_loses_wait else 'false'}.
 '''
 print(json.dumps({'rel': 'Invocation/Gen_Consts.v', 'text': text, 'queue_cap': queue_cap, 'recent_cap': recent_cap,
                   'direct_table': table, 'completing': completing, 'nonfinal': nonfinal, 'keeps_early': keeps_early,
-                  'state_under_lock': state_under_lock, 'unlocked_accesses': unlocked_acc, 'probe_accesses': n_acc}))
+                  'state_under_lock': state_under_lock, 'full_queue_loses_wait': full_queue_loses_wait, 'unlocked_accesses': unlocked_acc, 'probe_accesses': n_acc}))
